@@ -26,7 +26,9 @@ CONSTANTS Vals,            \* cell values
           MaxRows,
           QFull,           \* TRUE: the by-standing category q ranges over every category too
           CliReadsFile,    \* TRUE = required; FALSE = as implemented (P12)
-          CliWritesText    \* TRUE = required; FALSE = as implemented (P12)
+          CliWritesText,   \* TRUE = required; FALSE = as implemented (P12)
+          CliOpensOutputFirst  \* FALSE = required (read the input, then open the output); TRUE = design
+                               \* variant: both files opened in one `with`, the output truncated first
 
 VARIABLES file,     \* concrete input document: [category name -> [attrs, rows]]
           op,
@@ -39,8 +41,9 @@ VARIABLES file,     \* concrete input document: [category name -> [attrs, rows]]
           ret,      \* what the library function returned
           libret,   \* result of the library phase
           outfile,  \* what the CLI wrote
-          err       \* exception escaping main
-vars == <<file, op, phase, pc, content, doc, k, mapping, ret, libret, outfile, err>>
+          err,      \* exception escaping main
+          inplace   \* the CLI's output path IS its input path (editing a file where it is)
+vars == <<file, op, phase, pc, content, doc, k, mapping, ret, libret, outfile, err, inplace>>
 
 Cats  == {"p", "q"}
 AttrChoices == { <<"a">>, <<"a", "b">>, <<"b", "a">> }
@@ -62,34 +65,38 @@ ASSUME MaxRows <= 3   \* alphabets above have three letters
 AbsDoc(d) == [n \in DOMAIN d |-> CatFun(d[n])]
 NoRet == [text |-> <<"none">>, mapping |-> <<>>, kind |-> "none"]
 RetKind == IF op.kind = "copy" THEN "str" ELSE "pair"
-Parse(t) == IF t[1] = "pathtext" THEN <<>> ELSE t[2]    \* the path is no mmCIF: no container
+Parse(t) == IF t[1] \in {"pathtext", "empty"} THEN <<>> ELSE t[2]    \* the path / an empty file is no mmCIF: no container
+\* what the CLI finds in the input file when it reads it: its content, unless the output path is the
+\* same file and has already been opened for writing (truncated)
+CliSees == IF CliOpensOutputFirst /\ inplace THEN <<"empty">> ELSE <<"orig", file>>
 
 Init ==
   /\ file \in Files /\ op \in Ops
   /\ phase = "lib" /\ pc = "call" /\ content = <<"none">> /\ doc = <<>> /\ k = 0
   /\ mapping = <<>> /\ ret = NoRet /\ libret = NoRet /\ outfile = <<"absent">> /\ err = ""
+  /\ inplace \in BOOLEAN
 
 LibCall ==
   /\ pc = "call" /\ phase = "lib"
   /\ content' = <<"orig", file>> /\ pc' = "read"
-  /\ UNCHANGED <<file, op, phase, doc, k, mapping, ret, libret, outfile, err>>
+  /\ UNCHANGED <<file, op, phase, doc, k, mapping, ret, libret, outfile, err, inplace>>
 
 CliCopy ==
   /\ pc = "call" /\ phase = "cli" /\ op.kind = "copy"
-  /\ content' = IF CliReadsFile THEN <<"orig", file>> ELSE <<"pathtext">>
+  /\ content' = IF CliReadsFile THEN CliSees ELSE <<"pathtext">>
   /\ pc' = "read"
-  /\ UNCHANGED <<file, op, phase, doc, k, mapping, ret, libret, outfile, err>>
+  /\ UNCHANGED <<file, op, phase, doc, k, mapping, ret, libret, outfile, err, inplace>>
 
 CliReplace ==
   /\ pc = "call" /\ phase = "cli" /\ op.kind = "replace"
-  /\ content' = IF CliReadsFile THEN <<"orig", file>> ELSE <<"pathtext">>
+  /\ content' = IF CliReadsFile THEN CliSees ELSE <<"pathtext">>
   /\ pc' = "read"
-  /\ UNCHANGED <<file, op, phase, doc, k, mapping, ret, libret, outfile, err>>
+  /\ UNCHANGED <<file, op, phase, doc, k, mapping, ret, libret, outfile, err, inplace>>
 
 ReadFile ==
   /\ pc = "read"
   /\ doc' = Parse(content) /\ pc' = "check" /\ mapping' = <<>> /\ k' = 0
-  /\ UNCHANGED <<file, op, phase, content, ret, libret, outfile, err>>
+  /\ UNCHANGED <<file, op, phase, content, ret, libret, outfile, err, inplace>>
 
 Present == op.cat \in DOMAIN doc /\ op.from \in Ran(doc[op.cat].attrs)
 
@@ -97,14 +104,14 @@ ReturnUnchanged ==
   /\ pc = "check" /\ ~Present
   /\ ret' = [text |-> content, mapping |-> <<>>, kind |-> RetKind]
   /\ pc' = "returned"
-  /\ UNCHANGED <<file, op, phase, content, doc, k, mapping, libret, outfile, err>>
+  /\ UNCHANGED <<file, op, phase, content, doc, k, mapping, libret, outfile, err, inplace>>
 
 BeginCopy ==
   /\ pc = "check" /\ Present /\ op.kind = "copy"
   /\ doc' = IF op.to \in Ran(doc[op.cat].attrs) THEN doc
             ELSE [doc EXCEPT ![op.cat].attrs = Append(@, op.to)]
   /\ k' = 1 /\ pc' = "copyrows"
-  /\ UNCHANGED <<file, op, phase, content, mapping, ret, libret, outfile, err>>
+  /\ UNCHANGED <<file, op, phase, content, mapping, ret, libret, outfile, err, inplace>>
 
 CopyRow ==
   /\ pc = "copyrows" /\ k <= Len(doc[op.cat].rows)
@@ -115,12 +122,12 @@ CopyRow ==
      doc' = [doc EXCEPT ![op.cat].rows[k] =
                IF j > Len(row) THEN Append(row, row[i]) ELSE [row EXCEPT ![j] = row[i]]]
   /\ k' = k + 1
-  /\ UNCHANGED <<file, op, phase, pc, content, mapping, ret, libret, outfile, err>>
+  /\ UNCHANGED <<file, op, phase, pc, content, mapping, ret, libret, outfile, err, inplace>>
 
 BeginReplace ==
   /\ pc = "check" /\ Present /\ op.kind = "replace"
   /\ k' = 1 /\ mapping' = <<>> /\ pc' = "replrows"
-  /\ UNCHANGED <<file, op, phase, content, doc, ret, libret, outfile, err>>
+  /\ UNCHANGED <<file, op, phase, content, doc, ret, libret, outfile, err, inplace>>
 
 ReplaceRow ==
   /\ pc = "replrows" /\ k <= Len(doc[op.cat].rows)
@@ -131,18 +138,18 @@ ReplaceRow ==
      /\ mapping' = m2
      /\ doc' = [doc EXCEPT ![op.cat].rows[k][i] = m2[v]]
   /\ k' = k + 1
-  /\ UNCHANGED <<file, op, phase, pc, content, ret, libret, outfile, err>>
+  /\ UNCHANGED <<file, op, phase, pc, content, ret, libret, outfile, err, inplace>>
 
 WriteFile ==
   /\ pc \in {"copyrows", "replrows"} /\ k > Len(doc[op.cat].rows)
   /\ ret' = [text |-> <<"rewritten", doc>>, mapping |-> mapping, kind |-> RetKind]
   /\ pc' = "returned"
-  /\ UNCHANGED <<file, op, phase, content, doc, k, mapping, libret, outfile, err>>
+  /\ UNCHANGED <<file, op, phase, content, doc, k, mapping, libret, outfile, err, inplace>>
 
 LibReturn ==
   /\ pc = "returned" /\ phase = "lib"
   /\ libret' = ret /\ phase' = "cli" /\ pc' = "call"
-  /\ UNCHANGED <<file, op, content, doc, k, mapping, ret, outfile, err>>
+  /\ UNCHANGED <<file, op, content, doc, k, mapping, ret, outfile, err, inplace>>
 
 CliWrite ==
   /\ pc = "returned" /\ phase = "cli"
@@ -150,7 +157,7 @@ CliWrite ==
      THEN err' = "TypeError" /\ outfile' = <<"empty">>      \* open(..., "w") happened, write() raised
      ELSE outfile' = ret.text /\ UNCHANGED err
   /\ pc' = "done"
-  /\ UNCHANGED <<file, op, phase, content, doc, k, mapping, ret, libret>>
+  /\ UNCHANGED <<file, op, phase, content, doc, k, mapping, ret, libret, inplace>>
 
 Next == LibCall \/ CliCopy \/ CliReplace \/ ReadFile \/ ReturnUnchanged \/ BeginCopy \/ CopyRow
         \/ BeginReplace \/ ReplaceRow \/ WriteFile \/ LibReturn \/ CliWrite
